@@ -834,7 +834,9 @@ def run(rep: C.Report, tier: str) -> int:
         for j in res[0]:
             case, obs = groups[g][idx[j]]
             suspicious.append((g, case, obs, "model and implementation disagree"))
-    rep.coverage["traces_validated_against_impl"] = checked
+    rep.coverage["traces_validated_against_impl"] = (sum(int(v) for v in checked.values())
+                                                      if isinstance(checked, dict) else int(checked))
+    rep.coverage["traces_validated_breakdown"] = checked
     rep.coverage["correspondence_disagreements"] = len(suspicious)
 
     # ---- failing-input search on every disagreement
